@@ -39,6 +39,7 @@ type caseA struct {
 	Arg        int    `json:"arg"`
 	Near       int    `json:"near,omitempty"` // md5 / checksum-header / trailer-checksum: 0 = the digest of other content, 1 = the right digest with the case of one letter changed (another value in base64), 2 = ... with its last character replaced by one that differs in a data bit, 3 = ... in a padding bit (no canonical base64 text)
 	Proc       bool   `json:"proc,omitempty"` // real gateway process over TCP
+	Dir        bool   `json:"dir,omitempty"`  // target put only: the key is a directory object ("d<n>/"), which holds no bytes: size 0, whatever was drawn
 	Other      *other `json:"other,omitempty"`
 }
 
@@ -429,8 +430,16 @@ func execA(c caseA) (v verdict, err error) {
 	keyNo++
 	key := fmt.Sprintf("k%d", keyNo)
 	path := "/" + bkt + "/" + key
+	if c.Dir && c.Target == "put" {
+		key = fmt.Sprintf("d%d/", keyNo)
+		path = "/" + bkt + "/" + key
+		c.Size = 0
+	}
 	payload := s3c.GenBytes(c.Seed, c.Size)
 	old := s3c.GenBytes(c.Seed+999, 37)
+	if c.Dir && c.Target == "put" {
+		old = nil
+	}
 	var query []s3c.KV
 	var uploadID string
 	if c.Target == "part" {
@@ -470,7 +479,7 @@ func execA(c caseA) (v verdict, err error) {
 	var terr error
 	if c.Other != nil && !c.Proc {
 		o := c.Other
-		okey := "/" + bkt + "/" + key + "-other"
+		okey := "/" + bkt + "/other-" + strings.TrimSuffix(key, "/")
 		opayload := s3c.GenBytes(o.Seed, o.Size)
 		oreq, _ := buildUpload(caseA{Target: "put", Mode: o.Mode, Algo: o.Algo, Size: o.Size, Seed: o.Seed, Chunks: o.Chunks, Corrupt: "none"}, okey, nil, opayload)
 		var oresp *s3c.Resp
@@ -570,6 +579,10 @@ func genCase(t *rapid.T) caseA {
 	c.WithCsum = rapid.IntRange(0, 2).Draw(t, "csum") == 0
 	c.Seed = rapid.Uint64Range(1, 1<<20).Draw(t, "seed")
 	c.Size = rapid.OneOf(rapid.IntRange(0, 40), rapid.IntRange(0, 40), rapid.SampledFrom([]int{0, 1, 4095, 4096, 4097, 32767, 32768, 32769, 65536, 70001})).Draw(t, "size")
+	if c.Target == "put" && rapid.IntRange(0, 7).Draw(t, "dir") == 0 {
+		c.Dir = true
+		c.Size = 0
+	}
 	c.Chunks = rapid.SliceOfN(rapid.SampledFrom([]int{1, 2, 7, 16, 1000, 8192, 65536}), 0, 4).Draw(t, "chunks")
 	if rapid.IntRange(0, 2).Draw(t, "fragmented") == 0 {
 		c.Frags = rapid.SliceOfN(rapid.SampledFrom([]int{1, 3, 17, 85, 86, 100, 4096}), 1, 8).Draw(t, "frags")
@@ -669,6 +682,9 @@ func testC06(t *testing.T, proc bool) {
 		if c.Size == 0 {
 			sz = "size:0"
 		}
+		if c.Dir {
+			sz = "directory-object"
+		}
 		cls := []string{fmt.Sprintf("proc:%v", proc), "corrupt:" + c.Corrupt, "mode:" + c.Mode, "target:" + c.Target, "prior:" + c.Prior, sz}
 		if c.Corrupt == "md5" || c.Corrupt == "checksum-header" || c.Corrupt == "trailer-checksum" {
 			cls = append(cls, []string{"digest:of-other-content", "digest:letter-case-changed", "digest:last-data-bit-changed", "digest:padding-bit-changed"}[c.Near])
@@ -676,7 +692,7 @@ func testC06(t *testing.T, proc bool) {
 		if v.Interleaved {
 			cls = append(cls, "another-upload-in-between")
 		}
-		ev.Case(fmt.Sprintf("%s|%s|%s|%s|%s|%v|%v|%d|%v|%v|%v|%v|%v|%d|%+v", c.Target, c.Prior, c.Mode, c.Corrupt, c.Algo, c.WithMD5, c.WithCsum, c.Size, c.Chunks, c.Sidecar, c.NoOTmp, c.Versioning, proc, c.Near, c.Other), c.Corrupt != "none" || v.Interleaved, cls...)
+		ev.Case(fmt.Sprintf("%s|%s|%s|%s|%s|%v|%v|%d|%v|%v|%v|%v|%v|%d|%+v", c.Target, c.Prior, c.Mode, c.Corrupt, c.Algo, c.WithMD5, c.WithCsum, c.Size, c.Chunks, c.Sidecar, c.NoOTmp, c.Versioning, proc, c.Near, c.Other)+fmt.Sprint(c.Dir), c.Corrupt != "none" || v.Interleaved, cls...)
 		ev.Sample("corrupt:"+c.Corrupt, 1, c)
 		if err != nil {
 			if strings.HasPrefix(err.Error(), "SETUP") {
